@@ -510,6 +510,7 @@ def inter_checks(ld, r, tier, tag):
             if take_log():
                 failures.append(dict(kind='program', summary='constructing an intersperse applied user functions', config={}))
             del EARLY[:]
+            del APPLIED[:]           # (left over from the last pipeline of the previous family)
             segs, fin = observe_iter(ds)
             if EARLY:
                 failures.append(dict(kind='program', summary=f'iter() of an intersperse ran user functions before any result was requested: {EARLY[0][:5]}', config={}))
